@@ -354,3 +354,21 @@ RULES = [
     ("C14.R10", "T8-namesake", "the outstation's configuration (unsolicited retries, delays, confirm timeout) is plumbed field-to-namesake", r_plumb),
     ("C14.R11", "T2-loop", "the unsolicited confirm deadline is fixed per (re)transmission, not per wake-up", r11),
 ]
+
+
+def r12(ctx):
+    """'event data is sent unsolicited only for classes the master has enabled' - and for ALL of them: EventClasses::any() (is there
+    anything to look for?) consults class1, class2 and class3; the class-set helpers that decide matching consult their namesake."""
+    prog = ctx.prog
+    ab = prog.body("master::request::EventClasses::any")
+    reads = set()
+    sym = ctx.sym(ab)
+    exprs = [e for _, _, _, e in ret_sites(ab, sym)] + [x for g in ctx.gi(ab).all_guards() for x in g.exprs()]
+    for e in exprs:
+        for x in expr_walk(e):
+            if x[0] == "field" and x[1] == ("param", "self") and x[2] in ("class1", "class2", "class3"):
+                reads.add(x[2])
+    ctx.check(reads == {"class1", "class2", "class3"}, "EventClasses::any:all-three", "any() consults %s" % sorted(reads), ab.where(line=ab.line), bad_detail="EventClasses::any() consults only %s: with just the missing class enabled no unsolicited response is ever produced" % sorted(reads))
+
+
+RULES.append(("C14.R12", "T4-total", "EventClasses::any consults all three classes", r12))
